@@ -19,6 +19,7 @@
 #include <theta_union.hpp>
 #include <theta_intersection.hpp>
 #include <theta_a_not_b.hpp>
+#include <bounds_on_ratios_in_theta_sketched_sets.hpp>
 #include <tuple_sketch.hpp>
 #include <tuple_union.hpp>
 #include <tuple_intersection.hpp>
@@ -415,9 +416,15 @@ static void hll_union_task(Report& rep, const Config& cfg, const std::string& na
     const double truth = (double)a + b - o;
     hll_union u((uint8_t)lg);
     u.update(A); u.update(B);
-    { // the union object itself
+    { // the union object itself; each accessor ALSO as the first one after the merge, on its own copy (the merge defers a rebuild of
+      // the gadget's summary fields that every accessor has to run before it answers)
+      EB f; { hll_union c0(u); f.est = c0.get_estimate(); }
+      for (uint8_t sd = 1; sd <= 3; ++sd) { { hll_union c1(u); f.ub[sd] = c1.get_upper_bound(sd); } { hll_union c2(u); f.lb[sd] = c2.get_lower_bound(sd); } }
+      check_order(S, "union-object(first-accessor):", f, h);
       const EB e = observe_hll(u);
       check_order(S, "union-object:", e, h);
+      bool same = e.est == f.est; for (int sd = 1; sd <= 3; ++sd) same = same && e.lb[sd] == f.lb[sd] && e.ub[sd] == f.ub[sd];
+      REQ(S, "union-object:answers-do-not-depend-on-which-accessor-came-first", same, h(), "est " + g17(f.est) + "/" + g17(e.est) + " ub(1) " + g17(f.ub[1]) + "/" + g17(e.ub[1]) + " lb(1) " + g17(f.lb[1]) + "/" + g17(e.lb[1]));
       S.pt();
     }
     for (int rt = 0; rt < 3; ++rt) {
@@ -437,6 +444,34 @@ static void hll_union_task(Report& rep, const Config& cfg, const std::string& na
     }
   }
   S.done("lg_k " + str(lg) + " (operands at the union's lg_k" + (ndv > 1 ? ", and at +2/+0, +0/+1, +2/+1" : "") + "), " + str(card.size()) + "^2 cardinality pairs x 3 (type pair, overlap) x 3 result types");
+}
+
+// bounds on the ratio |B|/|A| for B a subset of A obtained by intersection (theta_B <= theta_A, strictly below when the other set is larger):
+// lower <= estimate <= upper, all within [0,1], exact when both sketches are exact
+static void theta_ratio_bounds_task(Report& rep, const Config& cfg, const std::string& name) {
+  Scn S(rep, name);
+  typedef bounds_on_ratios_in_theta_sketched_sets<trivial_extract_key> RB;
+  const int nas[] = {1, 5, 20, 31, 32, 33, 64, 100, 400, 2000}, ncs[] = {1, 10, 33, 100, 1000, 20000}; const int lgs[] = {5, 7};
+  for (int li = 0; li < 2; ++li) for (size_t ai = 0; ai < sizeof nas / sizeof nas[0]; ++ai) for (size_t ci = 0; ci < sizeof ncs / sizeof ncs[0]; ++ci) for (int ov = 0; ov < 3; ++ov) {
+    const int na = nas[ai], nc = ncs[ci]; const int shift = ov == 0 ? 0 : ov == 1 ? na / 2 : na;   // C = shift .. shift+nc-1
+    if (cfg.quick() && (ai + ci + ov) % 2 && li == 1) continue;
+    const std::string hs = "lgk" + str(lgs[li]) + ",|A|=" + str(na) + ",|C|=" + str(nc) + ",C-starts-at=" + str(shift);
+    journal(name, hs); StrHist h(hs);
+    update_theta_sketch a = update_theta_sketch::builder().set_lg_k((uint8_t)lgs[li]).build(), c = update_theta_sketch::builder().set_lg_k((uint8_t)lgs[li]).build();
+    for (int i = 0; i < na; ++i) a.update((uint64_t)i);
+    for (int i = 0; i < nc; ++i) c.update((uint64_t)(shift + i));
+    theta_intersection x; x.update(a); x.update(c); compact_theta_sketch b = x.get_result();
+    const double lb = RB::lower_bound_for_b_over_a(a, b), est = RB::estimate_of_b_over_a(a, b), ub = RB::upper_bound_for_b_over_a(a, b);
+    S.pt();
+    REQ(S, "ratio:lower<=estimate<=upper", lb <= est + 1e-12 && est <= ub + 1e-12, h(), "lb " + g17(lb) + " est " + g17(est) + " ub " + g17(ub));
+    REQ(S, "ratio:within-[0,1]", lb >= 0 && ub <= 1 + 1e-12 && fin(lb) && fin(est) && fin(ub), h(), "lb " + g17(lb) + " est " + g17(est) + " ub " + g17(ub));
+    if (!a.is_estimation_mode() && !b.is_estimation_mode()) {
+      const int inter = std::max(0, std::min(na, shift + nc) - shift);
+      REQ(S, "ratio:exact-when-both-exact", std::fabs(est - (double)inter / na) <= 1e-12 && lb == est && ub == est, h(), "lb " + g17(lb) + " est " + g17(est) + " ub " + g17(ub) + " true " + g17((double)inter / na));
+    }
+    S.tag(std::string("ratio|") + (a.is_estimation_mode() ? "A-est" : "A-exact") + (b.get_theta64() < a.get_theta64() ? "|thetaB<thetaA" : "|thetaB==thetaA") + (b.get_num_retained() == 0 ? "|B-nothing-retained" : ""));
+  }
+  S.done("B = A intersected with C for |A| in 1..2000, |C| in 1..20000, three overlaps, lg_k 5 and 7");
 }
 
 // get_rel_err over its whole domain, and the pure table / interpolation functions
@@ -873,6 +908,7 @@ int main(int argc, char** argv) {
   const float ps[2] = {1.0f, 0.5f};
   for (int lg = 8; lg >= 5; --lg) for (int pi = 0; pi < 2; ++pi) {
     const float p = ps[pi];
+    if (lg == 5 && p == 1.0f) ADD("api/theta-ratio-bounds", { theta_ratio_bounds_task(rep, cfg, name); });
     ADD("api/theta/lgk" + str(lg) + "/p" + str(p), { theta_api_task<ThetaFam>(rep, cfg, name, lg, p); });
     ADD("api/tuple/lgk" + str(lg) + "/p" + str(p), { theta_api_task<TupleFam>(rep, cfg, name, lg, p); });
     ADD("api/theta-setops/lgk" + str(lg) + "/p" + str(p), { theta_setops_task<ThetaFam>(rep, cfg, name, lg, p, 1.0f); });
